@@ -417,6 +417,10 @@ class Ctx:
                                                     "axioms": bad})
                     else:
                         self.discharged += 1
+        if self.tier == "thorough" and not self.proof_problems:
+            # second opinion: the independent checker re-checks the compiled property file and everything it
+            # depends on, and lists the axioms of every loaded library
+            self.coqchk(["Eupsv.Props." + self.pid])
         return not self.proof_problems
 
     def coqchk(self, modules):
@@ -424,6 +428,12 @@ class Ctx:
         self.checker_cmds.append(" ".join(cmd))
         rc, out = run_cmd(cmd, cwd=COQ, timeout=1600)
         self.extra["coqchk"] = {"rc": rc, "tail": out[-1500:]}
+        m = re.search(r"\* Axioms:(.*?)\n\s*\n\* Constants", out, re.S)
+        axioms = [a.strip() for a in (m.group(1).split("\n") if m else []) if a.strip() and a.strip() != "<none>"]
+        self.extra["coqchk"]["axioms"] = axioms
+        bad = [a for a in axioms if a not in ALLOWED_AXIOMS]
+        if bad:
+            self.proof_problems.append({"theorem": None, "what": "coqchk lists axioms outside the allow-list", "axioms": bad})
         if rc != 0:
             self.proof_problems.append({"theorem": None, "what": "coqchk failed", "log": out[-2000:]})
 
